@@ -1,3 +1,28 @@
 import PandoraModel.Properties.C07
 open Pandora.C07
+#print axioms flags_tied
+#print axioms mem_nearestInts
+#print axioms rint_mem_nearest
+#print axioms rint_nearest
+#print axioms rint_even_on_tie
 #print axioms outside_never
+#print axioms valid_bits_clear
+#print axioms flag_arith
+#print axioms comp_eq_one_iff
+#print axioms witness_strict_comp
+#print axioms comp_witness_loose
+#print axioms mem_arange
+#print axioms flagged_clauses
+#print axioms ccInside_clauses
+#print axioms ccPixel_spec_partial
+#print axioms ccPixel_invalid
+#print axioms ccPixel_outside_unflagged
+#print axioms ccPixel_never_both
+#print axioms check_pix
+#print axioms check_spec_partial
+#print axioms check_disp_unchanged
+#print axioms check_other_mask_irrelevant
+#print axioms validationRun_right_same_rule
+#print axioms ccPixel_ruleFix_spec
+#print axioms check_spec_ruleFix
+#print axioms cc_outside_counterexample
